@@ -48,7 +48,8 @@ pub fn decode_isolated(
     })
 }
 
-fn run_history(st: &State, t: &mut Toks) -> PResult<String> {
+/// Runs one construction history; Ok(Err(line)) = the start failed (line is the observation).
+fn build_history(st: &State, t: &mut Toks) -> PResult<std::result::Result<(DiameterMessage, String), String>> {
     let dict = st
         .dicts
         .get(t.next()?)
@@ -70,8 +71,8 @@ fn run_history(st: &State, t: &mut Toks) -> PResult<String> {
             let bytes = t.bytes()?;
             match decode_isolated(bytes, Arc::clone(&dict)) {
                 Ok(Ok(m)) => m,
-                Ok(Err(_)) => return Ok("R err".into()),
-                Err(p) => return Ok(format!("PANIC {}", p.replace('\n', " "))),
+                Ok(Err(_)) => return Ok(Err("R err".into())),
+                Err(p) => return Ok(Err(format!("PANIC {}", p.replace('\n', " ")))),
             }
         }
         s => return Err(format!("hstart {}", s)),
@@ -166,13 +167,199 @@ fn run_history(st: &State, t: &mut Toks) -> PResult<String> {
     if statuses.is_empty() {
         statuses.push('-');
     }
-    out.push_str("R ok ");
-    out.push_str(&statuses);
-    out.push(' ');
-    obs_msg(&mut out, &m);
-    enc_obs(&mut out, &m);
-    Ok(out)
+    let _ = &mut out;
+    Ok(Ok((m, statuses)))
 }
+
+fn run_history(st: &State, t: &mut Toks) -> PResult<String> {
+    match build_history(st, t)? {
+        Err(line) => Ok(line),
+        Ok((m, statuses)) => {
+            let mut out = String::new();
+            out.push_str("R ok ");
+            out.push_str(&statuses);
+            out.push(' ');
+            obs_msg(&mut out, &m);
+            enc_obs(&mut out, &m);
+            Ok(out)
+        }
+    }
+}
+
+// ---------- accessors (C18) ----------
+const GETTER_ORDER: [&str; 16] = [
+    "addr", "ip4", "ip6", "id", "uri", "en", "f32", "f64", "grp", "i32", "i64", "oct", "time", "u32", "u64", "utf",
+];
+
+/// mask of the sixteen typed getters (which return Some) and the value rendered through the
+/// getter that answered
+fn obs_getters(out: &mut String, a: &Avp) {
+    let present = [
+        a.get_address().is_some(),
+        a.get_address_ipv4().is_some(),
+        a.get_address_ipv6().is_some(),
+        a.get_identity().is_some(),
+        a.get_diameter_uri().is_some(),
+        a.get_enumerated().is_some(),
+        a.get_float32().is_some(),
+        a.get_float64().is_some(),
+        a.get_grouped().is_some(),
+        a.get_integer32().is_some(),
+        a.get_integer64().is_some(),
+        a.get_octetstring().is_some(),
+        a.get_time().is_some(),
+        a.get_unsigned32().is_some(),
+        a.get_unsigned64().is_some(),
+        a.get_utf8string().is_some(),
+    ];
+    let _ = GETTER_ORDER;
+    out.push('[');
+    for p in present.iter() {
+        out.push(if *p { '1' } else { '0' });
+    }
+    out.push('|');
+    let rendered_cell = std::cell::Cell::new(false);
+    let put = |out: &mut String, v: AvpValue| {
+        if !rendered_cell.get() {
+            obs_value_flat(out, &v);
+            rendered_cell.set(true);
+        }
+    };
+    if let Some(x) = a.get_address() { put(out, x.clone().into()); }
+    if let Some(x) = a.get_address_ipv4() { put(out, x.clone().into()); }
+    if let Some(x) = a.get_address_ipv6() { put(out, x.clone().into()); }
+    if let Some(x) = a.get_identity() { put(out, x.clone().into()); }
+    if let Some(x) = a.get_diameter_uri() { put(out, x.clone().into()); }
+    if let Some(x) = a.get_enumerated() { put(out, x.clone().into()); }
+    if let Some(x) = a.get_float32() { put(out, Float32::new(x).into()); }
+    if let Some(x) = a.get_float64() { put(out, Float64::new(x).into()); }
+    if let Some(g) = a.get_grouped() {
+        if !rendered_cell.get() {
+            let _ = write!(out, "G,{}", g.avps().len());
+            for m in g.avps() {
+                out.push(',');
+                obs_getters(out, m);
+            }
+            rendered_cell.set(true);
+        }
+    }
+    if let Some(x) = a.get_integer32() { put(out, Integer32::new(x).into()); }
+    if let Some(x) = a.get_integer64() { put(out, Integer64::new(x).into()); }
+    if let Some(x) = a.get_octetstring() { put(out, x.clone().into()); }
+    if let Some(x) = a.get_time() { put(out, x.clone().into()); }
+    if let Some(x) = a.get_unsigned32() { put(out, Unsigned32::new(x).into()); }
+    if let Some(x) = a.get_unsigned64() { put(out, Unsigned64::new(x).into()); }
+    if let Some(x) = a.get_utf8string() { put(out, x.clone().into()); }
+    if !rendered_cell.get() {
+        out.push('?');
+    }
+    out.push(']');
+}
+
+fn obs_value_flat(out: &mut String, v: &AvpValue) {
+    let mut s = String::new();
+    obs_value(&mut s, v);
+    out.push_str(&s.replace(' ', ","));
+}
+
+fn run_access(st: &State, t: &mut Toks) -> PResult<String> {
+    match build_history(st, t)? {
+        Err(line) => Ok(line),
+        Ok((m, _)) => {
+            let k = t.usize_dec()?;
+            let mut out = String::new();
+            let _ = write!(out, "G {}", m.get_avps().len());
+            for a in m.get_avps() {
+                out.push(' ');
+                obs_getters(&mut out, a);
+            }
+            out.push_str(" Q");
+            for _ in 0..k {
+                let c = t.u32()?;
+                match m.get_avp(c) {
+                    Some(a) => {
+                        let idx = m.get_avps().iter().position(|x| std::ptr::eq(x, a));
+                        match idx {
+                            Some(i) => {
+                                let _ = write!(out, " {}", i);
+                            }
+                            None => out.push_str(" foreign"),
+                        }
+                    }
+                    None => out.push_str(" none"),
+                }
+            }
+            Ok(out)
+        }
+    }
+}
+
+// ---------- fault-injecting writer (C05) ----------
+/// accepts `budget` octets in total and then fails; call i is capped / interrupted per `behav`
+struct FaultWrite {
+    budget: usize,
+    behav: std::collections::VecDeque<Option<usize>>,
+    accepted: Vec<u8>,
+}
+
+impl std::io::Write for FaultWrite {
+    fn write(&mut self, buf: &[u8]) -> std::io::Result<usize> {
+        if buf.is_empty() {
+            return Ok(0);
+        }
+        match self.behav.pop_front() {
+            Some(None) => Err(std::io::Error::new(std::io::ErrorKind::Interrupted, "interrupted")),
+            b => {
+                if self.budget == 0 {
+                    return Err(std::io::Error::new(std::io::ErrorKind::Other, "writer failed"));
+                }
+                let cap = match b {
+                    Some(Some(c)) => c,
+                    _ => usize::MAX,
+                };
+                let k = buf.len().min(cap).min(self.budget);
+                self.accepted.extend_from_slice(&buf[..k]);
+                self.budget -= k;
+                Ok(k)
+            }
+        }
+    }
+    fn flush(&mut self) -> std::io::Result<()> {
+        Ok(())
+    }
+}
+
+fn run_faultwrite(st: &State, t: &mut Toks) -> PResult<String> {
+    match build_history(st, t)? {
+        Err(line) => Ok(line),
+        Ok((m, _)) => {
+            let budget = t.u64()? as usize;
+            let n = t.usize_dec()?;
+            let mut behav = std::collections::VecDeque::new();
+            for _ in 0..n {
+                let s = t.next()?;
+                if s == "i" {
+                    behav.push_back(None);
+                } else {
+                    behav.push_back(Some(usize::from_str_radix(s, 16).map_err(|e| e.to_string())?));
+                }
+            }
+            let mut w = FaultWrite { budget, behav, accepted: Vec::new() };
+            let r = m.encode_to(&mut w);
+            let mut out = String::from(if r.is_ok() { "W ok " } else { "W err " });
+            let _ = write!(out, "{:x} ", w.accepted.len());
+            // long outputs are summarised by length + hash-free prefix/suffix to keep lines small
+            if w.accepted.len() <= 70000 {
+                hex(&mut out, &w.accepted);
+            } else {
+                hex(&mut out, &w.accepted[..64]);
+            }
+            let _ = write!(out, " LEN {:x}", m.get_length());
+            Ok(out)
+        }
+    }
+}
+
 
 fn run_decode(st: &State, t: &mut Toks) -> PResult<String> {
     let dict = st
@@ -355,6 +542,8 @@ pub fn handle(st: &mut State, line: &str) -> String {
                 Ok("OK".into())
             }
             "H" => run_history(st, &mut t),
+            "G" => run_access(st, &mut t),
+            "W" => run_faultwrite(st, &mut t),
             "X" => run_decode(st, &mut t),
             "LEAFDEC" => leaf_dec(&mut t),
             "LEAFENC" => leaf_enc(&mut t),
